@@ -146,6 +146,7 @@ fn main() {
                 "progs" => sessrec::record_programs(seed, n, out, flags.contains(&"input"), flags.contains(&"trace"), flags.contains(&"warn"), &mut rep),
                 "breakcont" => sessrec::record_breakcont(seed, n, out, &mut rep),
                 "flags4" => sessrec::record_flags4(seed, n, out, &mut rep),
+                "stopassign" => sessrec::record_stopassign(seed, n, out, &mut rep),
                 "runfresh" => sessrec::record_runfresh(seed, n, out, &mut rep),
                 "inputassign" => sessrec::record_inputassign(seed, n, out, &mut rep),
                 "editprobe" => sessrec::record_editprobe(seed, n, out, &mut rep),
